@@ -13,9 +13,8 @@
      CSortNull     a null among the keys of an order_rows or of an ordered window
      CSortTies     a limit, or an order-sensitive window function, over keys that do not determine the order
      CJoinNullKey  null join keys on both sides of a join
-     CFullJoinNullKey  a FULL join with a null key on either side.  NOT a convention of Model/Sem.v: on such inputs the
-                   SQLite dialect's emulation of FULL JOIN is known not to compute `sem_gen fl_sqlite` (listed finding), so
-                   the inputs are named here and excluded from the agreement theorem together with the conventions.
+   (Until /repo aad03d8 the SQLite dialect emulated FULL JOIN and lost null-key rows; those inputs were excluded here by a cause
+    CFullJoinNullKey.  SQLite now uses its native FULL JOIN and the exclusion is gone.)
 
    `insensitive p e` = no cause is hit; `sem_strict p e` = the result, or None as soon as one is hit.
    Proofs/AgreeP*.v: on insensitive inputs `sem_gen fl p e` is the same table for EVERY flavour (Props/C01.v, Props/C02.v).
@@ -28,12 +27,12 @@ Local Open Scope list_scope.
 
 Inductive cause :=
   | CCmpNull | CNeNull | CLogicNull | CMinMaxNull | CFMinMaxNull | CEmptyAgg | CRunningNull
-  | CSortNull | CSortTies | CJoinNullKey | CFullJoinNullKey.
+  | CSortNull | CSortTies | CJoinNullKey.
 
 Definition cause_code (c : cause) : nat :=
   match c with
   | CCmpNull => 1 | CNeNull => 2 | CLogicNull => 3 | CMinMaxNull => 4 | CFMinMaxNull => 5 | CEmptyAgg => 6
-  | CRunningNull => 7 | CSortNull => 8 | CSortTies => 9 | CJoinNullKey => 10 | CFullJoinNullKey => 11
+  | CRunningNull => 7 | CSortNull => 8 | CSortTies => 9 | CJoinNullKey => 10
   end.
 
 Definition smem (s : string) (l : list string) : bool := existsb (String.eqb s) l.
@@ -154,8 +153,7 @@ Definition order_causes (cs : list string) (lim : option nat) (t : table) : list
 Definition join_causes (on_a on_b : list string) (jt : jointype) (a b : table) : list cause :=
   let na := existsb (null_key (cols a) on_a) (rows a) in
   let nb := existsb (null_key (cols b) on_b) (rows b) in
-  (if na && nb then [CJoinNullKey] else []) ++
-  match jt with JFull => if na || nb then [CFullJoinNullKey] else [] | _ => [] end.
+  if na && nb then [CJoinNullKey] else [].
 
 (* ------------------------------------------------------------------ pipelines *)
 Definition on_table {A : Type} (o : option table) (f : table -> list A) : list A := match o with Some t => f t | None => [] end.
